@@ -2,7 +2,7 @@
    run) are inside the proved envelopes, so the ring theorems hold for every modulus the rings advertise. *)
 From Coq Require Import ZArith Bool Lia List.
 From C03 Require Import Model ModelF Params ProofsBase ProofsInt ProofsIntA ProofsIntB ProofsIntC ProofsIntR ProofsIntM ProofsIntX
-  ProofsIntY ProofsIntZ ProofsIntInv ProofsRU ProofsFM ProofsBarrett ProofsBarrettM ProofsBarrettS ProofsBarrettU ProofsPrecomp ProofsMisc.
+  ProofsIntY ProofsIntZ ProofsIntInv ProofsRU ProofsFM ProofsBarrett ProofsBarrettM ProofsBarrettS ProofsBarrettU ProofsPrecomp ProofsMisc ProofsBI ProofsBF ProofsEX.
 Import ListNotations.
 Local Open Scope Z_scope.
 
@@ -175,4 +175,36 @@ Proof.
   rewrite !andb_true_iff in H. destruct H as [[[Hw He] Hmn] Hmx].
   apply Z.ltb_lt in Hw. apply Z.eqb_eq in He. apply Z.leb_le in Hmn, Hmx.
   apply (ru_isUnit_exact w dbl p); [ repeat split; try lia | exact H32 ].
+Qed.
+
+(* ---- ModularBalanced<float|double>, ModularExtended<float|double> at the advertised bounds *)
+Definition advertised_bf : list (Z * Z * Z) := [(24, min_bf, max_bf); (53, min_bd, max_bd)].
+Definition advertised_ex : list (Z * Z * Z) := [(24, min_ef, max_ef); (53, min_ed, max_ed)].
+Definition bf_row_ok (row : Z * Z * Z) : bool :=
+  let '(pe, mn, mx) := row in (3 <=? mn) && existsb (fun c => (fst c =? pe) && (mx <=? snd c)) [(24, 8191); (53, 189812531)].
+Definition ex_row_ok (row : Z * Z * Z) : bool :=
+  let '(pe, mn, mx) := row in (2 <=? mn) && existsb (fun c => (fst c =? pe) && (mx <=? snd c)) [(24, 2097151); (53, 1125899906842623)].
+Lemma advertised_bf_ok : forallb bf_row_ok advertised_bf = true. Proof. vm_compute. reflexivity. Qed.
+Lemma advertised_ex_ok : forallb ex_row_ok advertised_ex = true. Proof. vm_compute. reflexivity. Qed.
+
+Definition BF_adv_stmt := forall pe mn mx p, In (pe, mn, mx) advertised_bf -> mn <= p <= mx ->
+  (forall y, bf_reduce pe p y = bal_rep p y) /\ BF_ops_exact pe p.
+Lemma bf_adv : BF_adv_stmt.
+Proof.
+  intros pe mn mx p HIn Hp. pose proof (proj1 (forallb_forall _ _) advertised_bf_ok _ HIn) as H. unfold bf_row_ok in H.
+  rewrite andb_true_iff in H. destruct H as [Hmn Hex]. apply Z.leb_le in Hmn.
+  apply existsb_exists in Hex. destruct Hex as [[e m] [Hin Hc]]. cbn [fst snd] in Hc.
+  rewrite andb_true_iff, Z.eqb_eq, Z.leb_le in Hc. destruct Hc as [-> Hm].
+  apply (bf_exact pe m p); [ | lia ]. cbn [In] in Hin. unfold bf_cfg. intuition.
+Qed.
+
+Definition EX_adv_stmt := forall pe mn mx p, In (pe, mn, mx) advertised_ex -> mn <= p <= mx -> forall a b, canon p a -> canon p b ->
+  ex_add pe p a b = (a + b) mod p /\ ex_sub pe p a b = (a - b) mod p /\ ex_neg pe p a = (- a) mod p.
+Lemma ex_adv : EX_adv_stmt.
+Proof.
+  intros pe mn mx p HIn Hp. pose proof (proj1 (forallb_forall _ _) advertised_ex_ok _ HIn) as H. unfold ex_row_ok in H.
+  rewrite andb_true_iff in H. destruct H as [Hmn Hex]. apply Z.leb_le in Hmn.
+  apply existsb_exists in Hex. destruct Hex as [[e m] [Hin Hc]]. cbn [fst snd] in Hc.
+  rewrite andb_true_iff, Z.eqb_eq, Z.leb_le in Hc. destruct Hc as [-> Hm].
+  apply (ex_lin_exact pe m p); [ | lia ]. cbn [In] in Hin. unfold ex_cfg. intuition.
 Qed.
